@@ -8,7 +8,7 @@ text (garbage, failing assertion, missing @sealed, @print, a service where a mes
 projections must be identical.  Binding B: the text_load events of every run name only closure members (hooks).
 """
 from __future__ import annotations
-from .. import reader_replay as rr
+from .. import core, reader_replay as rr
 
 def _focus(b):
     return b["kind"] != "print-path"      # the path of print events is C17's concern
@@ -51,6 +51,42 @@ def repo_suite_reader_trace(ctx):
     ctx.count(len(seq))
     ctx.extra["repository_reader_trace_events"] = len(seq)
 
+@core.safe
+def port_twin_worker(arg):
+    """An unreferenced definition whose FILE NAME carries the port-ID of a target (a collision, were it part of the result):
+    whatever its text, and whether or not unregulated port-IDs are allowed, the outcome is that of the tree without it."""
+    import pydsdl
+    from .. import dsdlio
+    api, allow, where, text = arg
+    base = {"vnd/7000.T.1.0.dsdl": "uint8 a\n@sealed\n", "vnd/U.1.0.dsdl": "vnd.T.1.0 t\n@sealed\n", "lk/oth/Fine.1.0.dsdl": "@sealed\n"}
+    outsider = {"lookup": "lk/oth/7000.Other.1.0.dsdl", "lookup-same-ns": "lk2/vnd/7000.Other.1.0.dsdl", "own-root": "vnd/7000.Sib.1.0.dsdl"}[where]
+    if where == "own-root" and api == "namespace":
+        return None          # there it IS part of the result
+    obs = []
+    for files in (base, dict(base, **{outsider: text})):
+        with dsdlio.Tree(dict(files, **{"lk2/vnd/.keep": ""}), "c19p") as tr:
+            prints = []
+            try:
+                lookups = [tr.path("lk/oth"), tr.path("lk2/vnd")]
+                if api == "namespace":
+                    r = pydsdl.read_namespace(tr.path("vnd"), lookups, print_output_handler=lambda p, l, t: prints.append((l, t)),
+                                              allow_unregulated_fixed_port_id=allow)
+                    o = ["ok", sorted(str(t) for t in r)]
+                else:
+                    d, t_ = pydsdl.read_files([tr.path("vnd/7000.T.1.0.dsdl"), tr.path("vnd/U.1.0.dsdl")], [tr.path("vnd")], lookups,
+                                              print_output_handler=lambda p, l, t: prints.append((l, t)), allow_unregulated_fixed_port_id=allow)
+                    o = ["ok", sorted(str(t) for t in d), sorted(str(t) for t in t_)]
+            except pydsdl.FrontendError as ex:
+                o = ["err", type(ex).__name__, None if ex.path is None else str(ex.path)[len(str(tr.root)):], ex.line]
+            except Exception as ex:      # noqa
+                o = ["raw", type(ex).__name__, str(ex)[:100]]
+            obs.append(o + [prints])
+    r = {"nt": True, "key": core.jhash([api, allow, where, text])}
+    if obs[0] != obs[1]:
+        r["bad"] = {"kind": "outside-port-twin", "case": {"api": api, "allow_unregulated": allow, "where": where, "text": text},
+                    "diff": [("the outcome changed with an unreferenced file", obs[1], obs[0])]}
+    return r
+
 def run(ctx):
     ctx.rule = ("TLC enumerates configurations (as C09/C10) for read_namespace and read_files with every target subset and "
                 "every distinguished body; every configuration is materialised and read; for each definition outside the "
@@ -69,6 +105,11 @@ def run(ctx):
         rr.run_cfg(ctx, "Reader_ns2_bodies.cfg", "namespace", paired=True, focus=_focus)
         rr.run_cfg(ctx, "Reader_files3_lean.cfg", "files", sample_mod=4, paired=True, focus=_focus)
         ctx.exhaustive = False
+    from . import c02
+    from .. import core as _core
+    twins = [(a, al, w, t) for a in ("namespace", "files") for al in (False, True) for w in ("lookup", "lookup-same-ns", "own-root")
+             for t in ("@@ garbage ]\n", "", "uint8 a\n@sealed\n", "@print 1\n@assert false\n@sealed\n", "@sealed\n---\n@sealed\n")]
+    c02.consume(ctx, _core.pmap(port_twin_worker, twins, chunksize=2), "port-twins")
     repo_suite_reader_trace(ctx)
     ctx.sample({"targets": ["d1/a/X.0.1"], "outside": "d1/a/Y.0.1 (same root, not a target, not referenced)",
                 "replacements": ["garbage", "assertfail", "nomode", "print", "service", "badref", "empty", "blank"]})
